@@ -39,7 +39,7 @@ COMPONENTS = {
     "real": ["SciPyOptimizer._initialize_bounds/_initialize_constraints*/_parse_options", "NormalizedConstraints", "get_masked_linear_constraints", "validate_supported_constraints"],
     "stub": ["FakeSciPy", "SimEvaluator (affine world)", "sim/inject sampler"],
 }
-PROBES = ["constraint_first_runs", "feasibility_compared", "infeasible_probe", "feasible_probe", "jacobian_compared", "bounds_compared", "maxiter_compared",
+PROBES = ["integrality_compared", "constraint_first_runs", "feasibility_compared", "infeasible_probe", "feasible_probe", "jacobian_compared", "bounds_compared", "maxiter_compared",
           "options_absent", "options_empty", "rejected_unsupported", "two_sided", "equality", "masked", "de_objects", "linear_retained_row",
           "linear_dropped_row"]
 METHODS = GRADIENT + NOGRAD + [DE]
@@ -236,6 +236,19 @@ def execute(scn: dict) -> dict:
             hl, hu = np.asarray(b.lb, float), np.asarray(b.ub, float)
             if hl.shape != lb.shape or not (np.array_equal(hl, lb) and np.array_equal(hu, ub)):
                 viol.append({"clause": "bounds-differ", "sig": {}, "detail": f"handed bounds {hl.tolist()} {hu.tolist()}, configured (free) {lb.tolist()} {ub.tolist()}"})
+        # ---- integrality (differential_evolution): which of the *free* variables are integers -------------
+        types = cfg["variables"].get("types")
+        if method == gen_scipy.DE and types is not None and "integrality" not in (cfg["optimizer"].get("options") or {}):
+            want_int = (np.broadcast_to(np.atleast_1d(np.asarray(types)), (mask.size,)) == 2)[mask]
+            got_int = (rec.get("options") or {}).get("integrality")
+            probe("integrality_compared")
+            compared += 1
+            if got_int is None or np.shape(got_int) != want_int.shape or not np.array_equal(np.asarray(got_int, bool), want_int):
+                viol.append({"clause": "integrality-not-of-free-variables",
+                             "sig": {"options": "absent" if "options" not in cfg["optimizer"] else ("empty" if not cfg["optimizer"]["options"] else "dict"),
+                                     "handed": "none" if got_int is None else "wrong"},
+                             "detail": f"variable types {types}, mask {mask.tolist()}: back-end received integrality "
+                                       f"{None if got_int is None else np.asarray(got_int).tolist()}, the free variables' are {want_int.tolist()}"})
         # ---- options -----------------------------------------------------------------
         mi = cfg["optimizer"].get("max_iterations")
         form = "absent" if "options" not in cfg["optimizer"] else ("empty" if not cfg["optimizer"]["options"] else "dict")
